@@ -72,7 +72,7 @@ def gen_val(rng, depth):
     if r < 0.12:
         o = G.gen_obj(rng, 2)
         return ("known", o)
-    return G.gen_ty(rng, depth, allow_any=rng.random() < 0.15)
+    return G.gen_ty(rng, depth, allow_any=rng.random() < 0.15, big_unhashable=True)
 
 
 def near(rng, a, depth):
